@@ -12,7 +12,11 @@ import torch
 
 NAMES = ["a", "b", "c", "x1", "_p", "data", "values", "items", "0", "12", "é", "名", "a.b",
          "with space", "A", "tensor", "module", "shape", "attrs", "k-1", "_private", "n", "arr",
-         "keys", "c0", "info", "child", "count", "flag", ".dm4", ".hidden", "..x", "~t", "#h", "a b.c"]
+         "keys", "c0", "info", "child", "count", "flag", ".dm4", ".hidden", "..x", "~t", "#h", "a b.c",
+         # names that are NOT in Unicode normal form (NFC / NFKC would rewrite them) and a pair of
+         # canonically equivalent but distinct names
+         "\u212b_px", "\u00c5_px", "cafe\u0301", "caf\u00e9", "\u00b5_abs", "\u03bc_abs", "\ufb01le",
+         "\u2126", "\uff21"]
 STRS = ["", "a", "hello world", "é名", "a.b/c", "it's \"q\"", "0", "None", "true", " lead", "x" * 40,
         "line\nbreak", "tab\t", "{}", "[1]", "1e5", "nan"]
 INTS = [0, 1, -1, 2, 7, 255, -128, 2 ** 31 - 1, -(2 ** 31), 2 ** 53, 2 ** 53 + 1, -(2 ** 62),
@@ -116,6 +120,30 @@ def build(s):
     import qsim_models
 
     k = s["k"]
+    if k == "bulk":
+        # size extremes described compactly (the plan stays small): long strings, long item-wise
+        # lists, large dicts, deep nesting, many-element numeric lists
+        n, what = s["n"], s["what"]
+        if what == "str":
+            return (s.get("ch", "x") * n)[:n]
+        if what == "strlist":
+            return [f"s{i}" for i in range(n)]
+        if what == "mixedlist":
+            return [i if i % 2 else f"s{i}" for i in range(n)]
+        if what == "intlist":
+            return [((i * 2654435761) % (2 ** 40)) - 2 ** 39 for i in range(n)]
+        if what == "floatlist_integral":
+            return [float(i) for i in range(n)]
+        if what == "dict":
+            return {f"k{i}": i for i in range(n)}
+        if what == "nest":
+            v = [1, "leaf"]
+            for _ in range(n):
+                v = [v]
+            return v
+        if what == "tuplelist":
+            return [(i, f"t{i}") for i in range(n)]
+        raise ValueError(what)
     if k == "int":
         return int(s["v"])
     if k == "float":
